@@ -11,6 +11,13 @@ namespace Prtpy.Natural
 
 variable {α β : Type}
 
+/-- test input for the non-vacuity examples: `(value, name)` pairs with ties -/
+def exItems : List (Nat × Char) := [(4, 'a'), (7, 'b'), (4, 'c'), (2, 'd'), (5, 'e'), (4, 'f')]
+/-- the same items presented in the reverse order -/
+def exItems' : List (Nat × Char) := [(4, 'f'), (5, 'e'), (2, 'd'), (4, 'c'), (7, 'b'), (4, 'a')]
+
+theorem exItems_perm : exItems.Perm exItems' := by decide
+
 /-! ## 1. Sorting -/
 
 theorem insertDesc_map (f : α → β) (vα : α → Nat) (vβ : β → Nat) (hf : ∀ a, vβ (f a) = vα a)
@@ -177,6 +184,12 @@ theorem greedy_natural (k : Nat) (items : List α) :
   rw [sortDesc_map f vα vβ hf, ← mapItems_new f k]
   exact foldl_natural f (Bins.mapItems f) _ _ (greedyStep_natural f vα vβ hf) _ _
 
+omit hf in
+example : greedy id 2 (exItems.map Prod.fst) = (greedy Prod.fst 2 exItems).mapItems Prod.fst :=
+  greedy_natural Prod.fst Prod.fst id (fun _ => rfl) 2 exItems
+omit hf in
+example : (greedy Prod.fst 2 exItems).sums = [13, 13] := by decide
+
 /-! ### round robin -/
 
 theorem rrLoop_natural (k : Nat) (b : Bins α) (i : Nat) (xs : List α) :
@@ -190,6 +203,12 @@ theorem roundrobin_natural (k : Nat) (items : List α) :
   unfold roundrobin
   rw [sortDesc_map f vα vβ hf, ← mapItems_new f k]
   exact rrLoop_natural f vα vβ hf k _ 0 _
+
+omit hf in
+example : roundrobin id 2 (exItems.map Prod.fst) = (roundrobin Prod.fst 2 exItems).mapItems Prod.fst :=
+  roundrobin_natural Prod.fst Prod.fst id (fun _ => rfl) 2 exItems
+omit hf in
+example : (roundrobin Prod.fst 2 exItems).sums = [15, 11] := by decide
 
 /-! ### first fit -/
 
@@ -214,11 +233,23 @@ theorem ffOnline_natural (B : Nat) (items : List α) :
   rw [← mapItems_new f 1]
   exact ffLoop_natural f vα vβ hf B _ _
 
+omit hf in
+example : ffOnline id 10 (exItems.map Prod.fst) = (ffOnline Prod.fst 10 exItems).map (Bins.mapItems Prod.fst) :=
+  ffOnline_natural Prod.fst Prod.fst id (fun _ => rfl) 10 exItems
+omit hf in
+example : (ffOnline Prod.fst 10 exItems).map (·.sums) = .ok [10, 7, 9] := by rfl
+
 theorem ffDecreasing_natural (B : Nat) (items : List α) :
     ffDecreasing vβ B (items.map f) = (ffDecreasing vα B items).map (Bins.mapItems f) := by
   unfold ffDecreasing
   rw [sortDesc_map f vα vβ hf]
   exact ffOnline_natural f vα vβ hf B _
+
+omit hf in
+example : ffDecreasing id 10 (exItems.map Prod.fst) = (ffDecreasing Prod.fst 10 exItems).map (Bins.mapItems Prod.fst) :=
+  ffDecreasing_natural Prod.fst Prod.fst id (fun _ => rfl) 10 exItems
+omit hf in
+example : (ffDecreasing Prod.fst 10 exItems).map (·.sums) = .ok [9, 9, 8] := by rfl
 
 /-! ### best fit -/
 
@@ -243,11 +274,23 @@ theorem bfOnline_natural (B : Nat) (items : List α) :
   rw [← mapItems_new f 1]
   exact bfLoop_natural f vα vβ hf B _ _
 
+omit hf in
+example : bfOnline id 10 (exItems.map Prod.fst) = (bfOnline Prod.fst 10 exItems).map (Bins.mapItems Prod.fst) :=
+  bfOnline_natural Prod.fst Prod.fst id (fun _ => rfl) 10 exItems
+omit hf in
+example : (bfOnline Prod.fst 10 exItems).map (·.sums) = .ok [10, 7, 9] := by rfl
+
 theorem bfDecreasing_natural (B : Nat) (items : List α) :
     bfDecreasing vβ B (items.map f) = (bfDecreasing vα B items).map (Bins.mapItems f) := by
   unfold bfDecreasing
   rw [sortDesc_map f vα vβ hf]
   exact bfOnline_natural f vα vβ hf B _
+
+omit hf in
+example : bfDecreasing id 10 (exItems.map Prod.fst) = (bfDecreasing Prod.fst 10 exItems).map (Bins.mapItems Prod.fst) :=
+  bfDecreasing_natural Prod.fst Prod.fst id (fun _ => rfl) 10 exItems
+omit hf in
+example : (bfDecreasing Prod.fst 10 exItems).map (·.sums) = .ok [7, 9, 10] := by rfl
 
 /-! ### multifit -/
 
@@ -271,6 +314,11 @@ theorem multifit_natural (k : Nat) (items : List α) (iterations : Nat) :
   · rfl
   · exact ffOnline_natural f vα vβ hf _ _
 
+omit hf in
+example : multifit id 2 (exItems.map Prod.fst) 5
+    = (multifit Prod.fst 2 exItems 5).map (Bins.mapItems Prod.fst) :=
+  multifit_natural Prod.fst Prod.fst id (fun _ => rfl) 2 exItems 5
+
 /-! ### greedy covering -/
 
 theorem coverStep_natural (B : Nat) (b : Bins α) (x : α) :
@@ -286,6 +334,12 @@ theorem coverDecreasing_natural (B : Nat) (items : List α) :
     coverDecreasing vβ B (items.map f) = (coverDecreasing vα B items).mapItems f := by
   unfold coverDecreasing
   rw [sortDesc_map f vα vβ hf, ← mapItems_new f 1, decrSub_natural f vα vβ hf, mapItems_removeLast]
+
+omit hf in
+example : coverDecreasing id 8 (exItems.map Prod.fst) = (coverDecreasing Prod.fst 8 exItems).mapItems Prod.fst :=
+  coverDecreasing_natural Prod.fst Prod.fst id (fun _ => rfl) 8 exItems
+omit hf in
+example : (coverDecreasing Prod.fst 8 exItems).sums = [12, 8] := by decide
 
 /-! ### CFLZ covering -/
 
@@ -324,6 +378,12 @@ theorem twoThirds_natural (B : Nat) (items : List α) :
     twoThirds vβ B (items.map f) = (twoThirds vα B items).mapItems f := by
   simp only [twoThirds, sortDesc_map f vα vβ hf, List.length_map, mapItems_removeLast]
   rw [← mapItems_new f 1, twoThirdsLoop_natural f vα vβ hf]
+
+omit hf in
+example : twoThirds id 8 (exItems.map Prod.fst) = (twoThirds Prod.fst 8 exItems).mapItems Prod.fst :=
+  twoThirds_natural Prod.fst Prod.fst id (fun _ => rfl) 8 exItems
+omit hf in
+example : (twoThirds Prod.fst 8 exItems).sums = [9, 9, 8] := by decide
 
 theorem filter_isBig_map (B : Nat) (s : List α) :
     (s.map f).filter (isBig vβ B) = (s.filter (isBig vα B)).map f := by
@@ -375,6 +435,12 @@ theorem threeQuarters_natural (B : Nat) (items : List α) :
   simp only [threeQuarters, sortDesc_map f vα vβ hf, List.length_map, mapItems_removeLast,
     filter_isBig_map f vα vβ hf, filter_isMedium_map f vα vβ hf, filter_isSmall_map f vα vβ hf]
   rw [← mapItems_new f 1, threeQuartersLoop_natural f vα vβ hf]
+
+omit hf in
+example : threeQuarters id 8 (exItems.map Prod.fst) = (threeQuarters Prod.fst 8 exItems).mapItems Prod.fst :=
+  threeQuarters_natural Prod.fst Prod.fst id (fun _ => rfl) 8 exItems
+omit hf in
+example : (threeQuarters Prod.fst 8 exItems).sums = [9, 9, 8] := by decide
 
 end Algs
 
@@ -486,6 +552,12 @@ theorem kk_natural (k : Nat) (items : List α) :
   cases htop (kkLoop ((sortDesc vα items).length - 1) (pushAll vα k (sortDesc vα items) [] 0).1
       (pushAll vα k (sortDesc vα items) [] 0).2) <;> rfl
 
+omit hf in
+example : kk id 3 (exItems.map Prod.fst) = (kk Prod.fst 3 exItems).map (Bins.mapItems Prod.fst) :=
+  kk_natural Prod.fst Prod.fst id (fun _ => rfl) 3 exItems
+omit hf in
+example : (kk Prod.fst 3 exItems).map (·.sums) = .ok [8, 9, 9] := by rfl
+
 end KK
 
 /-! ## 4. The sums depend only on the values of the items
@@ -504,6 +576,9 @@ theorem greedy_sums_values (p : Nat) (items : List α) :
     (greedy v p items).sums = (greedy id p (items.map v)).sums := by
   rw [greedy_values]; rfl
 
+example : (greedy Prod.fst 2 exItems).sums = (greedy id 2 [4, 7, 4, 2, 5, 4]).sums :=
+  greedy_sums_values Prod.fst 2 exItems
+
 theorem roundrobin_values (p : Nat) (items : List α) :
     roundrobin id p (items.map v) = (roundrobin v p items).mapItems v :=
   roundrobin_natural v v id (fun _ => rfl) p items
@@ -511,6 +586,9 @@ theorem roundrobin_values (p : Nat) (items : List α) :
 theorem roundrobin_sums_values (p : Nat) (items : List α) :
     (roundrobin v p items).sums = (roundrobin id p (items.map v)).sums := by
   rw [roundrobin_values]; rfl
+
+example : (roundrobin Prod.fst 2 exItems).sums = (roundrobin id 2 [4, 7, 4, 2, 5, 4]).sums :=
+  roundrobin_sums_values Prod.fst 2 exItems
 
 theorem coverDecreasing_values (p : Nat) (items : List α) :
     coverDecreasing id p (items.map v) = (coverDecreasing v p items).mapItems v :=
@@ -520,6 +598,9 @@ theorem coverDecreasing_sums_values (p : Nat) (items : List α) :
     (coverDecreasing v p items).sums = (coverDecreasing id p (items.map v)).sums := by
   rw [coverDecreasing_values]; rfl
 
+example : (coverDecreasing Prod.fst 8 exItems).sums = (coverDecreasing id 8 [4, 7, 4, 2, 5, 4]).sums :=
+  coverDecreasing_sums_values Prod.fst 8 exItems
+
 theorem twoThirds_values (p : Nat) (items : List α) :
     twoThirds id p (items.map v) = (twoThirds v p items).mapItems v :=
   twoThirds_natural v v id (fun _ => rfl) p items
@@ -527,6 +608,9 @@ theorem twoThirds_values (p : Nat) (items : List α) :
 theorem twoThirds_sums_values (p : Nat) (items : List α) :
     (twoThirds v p items).sums = (twoThirds id p (items.map v)).sums := by
   rw [twoThirds_values]; rfl
+
+example : (twoThirds Prod.fst 8 exItems).sums = (twoThirds id 8 [4, 7, 4, 2, 5, 4]).sums :=
+  twoThirds_sums_values Prod.fst 8 exItems
 
 theorem threeQuarters_values (p : Nat) (items : List α) :
     threeQuarters id p (items.map v) = (threeQuarters v p items).mapItems v :=
@@ -536,6 +620,9 @@ theorem threeQuarters_sums_values (p : Nat) (items : List α) :
     (threeQuarters v p items).sums = (threeQuarters id p (items.map v)).sums := by
   rw [threeQuarters_values]; rfl
 
+example : (threeQuarters Prod.fst 8 exItems).sums = (threeQuarters id 8 [4, 7, 4, 2, 5, 4]).sums :=
+  threeQuarters_sums_values Prod.fst 8 exItems
+
 theorem ffOnline_values (p : Nat) (items : List α) :
     ffOnline id p (items.map v) = (ffOnline v p items).map (Bins.mapItems v) :=
   ffOnline_natural v v id (fun _ => rfl) p items
@@ -543,6 +630,9 @@ theorem ffOnline_values (p : Nat) (items : List α) :
 theorem ffOnline_sums_values (p : Nat) (items : List α) :
     (ffOnline v p items).map (·.sums) = (ffOnline id p (items.map v)).map (·.sums) := by
   rw [ffOnline_values, except_map_sums]
+
+example : (ffOnline Prod.fst 10 exItems).map (·.sums) = (ffOnline id 10 [4, 7, 4, 2, 5, 4]).map (·.sums) :=
+  ffOnline_sums_values Prod.fst 10 exItems
 
 theorem ffDecreasing_values (p : Nat) (items : List α) :
     ffDecreasing id p (items.map v) = (ffDecreasing v p items).map (Bins.mapItems v) :=
@@ -552,6 +642,9 @@ theorem ffDecreasing_sums_values (p : Nat) (items : List α) :
     (ffDecreasing v p items).map (·.sums) = (ffDecreasing id p (items.map v)).map (·.sums) := by
   rw [ffDecreasing_values, except_map_sums]
 
+example : (ffDecreasing Prod.fst 10 exItems).map (·.sums) = (ffDecreasing id 10 [4, 7, 4, 2, 5, 4]).map (·.sums) :=
+  ffDecreasing_sums_values Prod.fst 10 exItems
+
 theorem bfOnline_values (p : Nat) (items : List α) :
     bfOnline id p (items.map v) = (bfOnline v p items).map (Bins.mapItems v) :=
   bfOnline_natural v v id (fun _ => rfl) p items
@@ -559,6 +652,9 @@ theorem bfOnline_values (p : Nat) (items : List α) :
 theorem bfOnline_sums_values (p : Nat) (items : List α) :
     (bfOnline v p items).map (·.sums) = (bfOnline id p (items.map v)).map (·.sums) := by
   rw [bfOnline_values, except_map_sums]
+
+example : (bfOnline Prod.fst 10 exItems).map (·.sums) = (bfOnline id 10 [4, 7, 4, 2, 5, 4]).map (·.sums) :=
+  bfOnline_sums_values Prod.fst 10 exItems
 
 theorem bfDecreasing_values (p : Nat) (items : List α) :
     bfDecreasing id p (items.map v) = (bfDecreasing v p items).map (Bins.mapItems v) :=
@@ -568,6 +664,9 @@ theorem bfDecreasing_sums_values (p : Nat) (items : List α) :
     (bfDecreasing v p items).map (·.sums) = (bfDecreasing id p (items.map v)).map (·.sums) := by
   rw [bfDecreasing_values, except_map_sums]
 
+example : (bfDecreasing Prod.fst 10 exItems).map (·.sums) = (bfDecreasing id 10 [4, 7, 4, 2, 5, 4]).map (·.sums) :=
+  bfDecreasing_sums_values Prod.fst 10 exItems
+
 theorem kk_values (p : Nat) (items : List α) :
     kk id p (items.map v) = (kk v p items).map (Bins.mapItems v) :=
   kk_natural v v id (fun _ => rfl) p items
@@ -575,6 +674,9 @@ theorem kk_values (p : Nat) (items : List α) :
 theorem kk_sums_values (p : Nat) (items : List α) :
     (kk v p items).map (·.sums) = (kk id p (items.map v)).map (·.sums) := by
   rw [kk_values, except_map_sums]
+
+example : (kk Prod.fst 3 exItems).map (·.sums) = (kk id 3 [4, 7, 4, 2, 5, 4]).map (·.sums) :=
+  kk_sums_values Prod.fst 3 exItems
 
 theorem multifit_values (k : Nat) (items : List α) (iterations : Nat) :
     multifit id k (items.map v) iterations = (multifit v k items iterations).map (Bins.mapItems v) :=
@@ -584,6 +686,9 @@ theorem multifit_sums_values (k : Nat) (items : List α) (iterations : Nat) :
     (multifit v k items iterations).map (·.sums)
       = (multifit id k (items.map v) iterations).map (·.sums) := by
   rw [multifit_values, except_map_sums]
+
+example : (multifit Prod.fst 2 exItems 5).map (·.sums) = (multifit id 2 [4, 7, 4, 2, 5, 4] 5).map (·.sums) :=
+  multifit_sums_values Prod.fst 2 exItems 5
 
 end Values
 
@@ -665,6 +770,14 @@ theorem greedy_perm_sums (p : Nat) : (greedy v p items₁).sums = (greedy v p it
   have := congrArg Bins.sums (greedy_perm_values v h p)
   exact this
 
+omit h in
+/-- the contents do depend on the presentation (ties), only the values do not -/
+example : (greedy Prod.fst 2 exItems).lists ≠ (greedy Prod.fst 2 exItems').lists := by decide
+
+omit h in
+example : (greedy Prod.fst 2 exItems).sums = (greedy Prod.fst 2 exItems').sums :=
+  greedy_perm_sums Prod.fst exItems_perm 2
+
 /-- generalisation of `roundrobin_perm_sums`: after replacing every item by its value, the whole output agrees -/
 theorem roundrobin_perm_values (p : Nat) :
     (roundrobin v p items₁).mapItems v = (roundrobin v p items₂).mapItems v := by
@@ -674,6 +787,10 @@ theorem roundrobin_perm_values (p : Nat) :
 theorem roundrobin_perm_sums (p : Nat) : (roundrobin v p items₁).sums = (roundrobin v p items₂).sums := by
   have := congrArg Bins.sums (roundrobin_perm_values v h p)
   exact this
+
+omit h in
+example : (roundrobin Prod.fst 2 exItems).sums = (roundrobin Prod.fst 2 exItems').sums :=
+  roundrobin_perm_sums Prod.fst exItems_perm 2
 
 /-- generalisation of `coverDecreasing_perm_sums`: after replacing every item by its value, the whole output agrees -/
 theorem coverDecreasing_perm_values (p : Nat) :
@@ -685,6 +802,10 @@ theorem coverDecreasing_perm_sums (p : Nat) : (coverDecreasing v p items₁).sum
   have := congrArg Bins.sums (coverDecreasing_perm_values v h p)
   exact this
 
+omit h in
+example : (coverDecreasing Prod.fst 8 exItems).sums = (coverDecreasing Prod.fst 8 exItems').sums :=
+  coverDecreasing_perm_sums Prod.fst exItems_perm 8
+
 /-- generalisation of `twoThirds_perm_sums`: after replacing every item by its value, the whole output agrees -/
 theorem twoThirds_perm_values (p : Nat) :
     (twoThirds v p items₁).mapItems v = (twoThirds v p items₂).mapItems v := by
@@ -695,6 +816,10 @@ theorem twoThirds_perm_sums (p : Nat) : (twoThirds v p items₁).sums = (twoThir
   have := congrArg Bins.sums (twoThirds_perm_values v h p)
   exact this
 
+omit h in
+example : (twoThirds Prod.fst 8 exItems).sums = (twoThirds Prod.fst 8 exItems').sums :=
+  twoThirds_perm_sums Prod.fst exItems_perm 8
+
 /-- generalisation of `threeQuarters_perm_sums`: after replacing every item by its value, the whole output agrees -/
 theorem threeQuarters_perm_values (p : Nat) :
     (threeQuarters v p items₁).mapItems v = (threeQuarters v p items₂).mapItems v := by
@@ -704,6 +829,10 @@ theorem threeQuarters_perm_values (p : Nat) :
 theorem threeQuarters_perm_sums (p : Nat) : (threeQuarters v p items₁).sums = (threeQuarters v p items₂).sums := by
   have := congrArg Bins.sums (threeQuarters_perm_values v h p)
   exact this
+
+omit h in
+example : (threeQuarters Prod.fst 8 exItems).sums = (threeQuarters Prod.fst 8 exItems').sums :=
+  threeQuarters_perm_sums Prod.fst exItems_perm 8
 
 /-- generalisation of `ffDecreasing_perm_sums`: after replacing every item by its value, the whole output agrees -/
 theorem ffDecreasing_perm_values (p : Nat) :
@@ -716,6 +845,10 @@ theorem ffDecreasing_perm_sums (p : Nat) :
   have := congrArg (Except.map (·.sums)) (ffDecreasing_perm_values v h p)
   rwa [except_map_sums, except_map_sums] at this
 
+omit h in
+example : (ffDecreasing Prod.fst 10 exItems).map (·.sums) = (ffDecreasing Prod.fst 10 exItems').map (·.sums) :=
+  ffDecreasing_perm_sums Prod.fst exItems_perm 10
+
 /-- generalisation of `bfDecreasing_perm_sums`: after replacing every item by its value, the whole output agrees -/
 theorem bfDecreasing_perm_values (p : Nat) :
     (bfDecreasing v p items₁).map (Bins.mapItems v) = (bfDecreasing v p items₂).map (Bins.mapItems v) := by
@@ -727,6 +860,10 @@ theorem bfDecreasing_perm_sums (p : Nat) :
   have := congrArg (Except.map (·.sums)) (bfDecreasing_perm_values v h p)
   rwa [except_map_sums, except_map_sums] at this
 
+omit h in
+example : (bfDecreasing Prod.fst 10 exItems).map (·.sums) = (bfDecreasing Prod.fst 10 exItems').map (·.sums) :=
+  bfDecreasing_perm_sums Prod.fst exItems_perm 10
+
 /-- generalisation of `kk_perm_sums`: after replacing every item by its value, the whole output agrees -/
 theorem kk_perm_values (p : Nat) :
     (kk v p items₁).map (Bins.mapItems v) = (kk v p items₂).map (Bins.mapItems v) := by
@@ -737,6 +874,10 @@ theorem kk_perm_sums (p : Nat) :
     (kk v p items₁).map (·.sums) = (kk v p items₂).map (·.sums) := by
   have := congrArg (Except.map (·.sums)) (kk_perm_values v h p)
   rwa [except_map_sums, except_map_sums] at this
+
+omit h in
+example : (kk Prod.fst 3 exItems).map (·.sums) = (kk Prod.fst 3 exItems').map (·.sums) :=
+  kk_perm_sums Prod.fst exItems_perm 3
 
 /-- generalisation of `multifit_perm_sums` -/
 theorem multifit_perm_values (k iterations : Nat) :
@@ -750,6 +891,380 @@ theorem multifit_perm_sums (k iterations : Nat) :
   have := congrArg (Except.map (·.sums)) (multifit_perm_values v h k iterations)
   rwa [except_map_sums, except_map_sums] at this
 
+omit h in
+example : (multifit Prod.fst 2 exItems 5).map (·.sums) = (multifit Prod.fst 2 exItems' 5).map (·.sums) :=
+  multifit_perm_sums Prod.fst exItems_perm 2 5
+
 end Perm
 
+/-! ## 6. CBLDM -/
+
+theorem ite_map {σ τ : Type} {c : Prop} [Decidable c] (g : σ → τ) {a b : σ} {a' b' : τ}
+    (ha : a' = g a) (hb : b' = g b) : (if c then a' else b') = g (if c then a else b) := by
+  split <;> assumption
+
+/-- rename the items of a CBLDM search state -/
+def mapCbState (f : α → β) (st : CbState α) : CbState β :=
+  ⟨st.best.map (Bins.mapItems f), st.sd, st.opt, st.tick⟩
+
+section CBLDM
+variable (f : α → β)
+
+theorem sumDiff_mapItems (b : Bins α) : sumDiff (b.mapItems f) = sumDiff b := rfl
+
+theorem lenDiff_mapItems (b : Bins α) : lenDiff (b.mapItems f) = lenDiff b := by
+  simp only [lenDiff, mapItems_lists, getD_map_map, List.length_map]
+
+theorem cbCombine_natural (a b : Bins α) :
+    cbCombine (a.mapItems f) (b.mapItems f) = (cbCombine a b).mapItems f := by
+  unfold cbCombine
+  rw [mapItems_sortAsc]
+  simp only [Bins.mapItems, getD_map_map, List.map_cons, List.map_nil, List.map_append]
+
+theorem cbSplit_natural (a b : Bins α) :
+    cbSplit (a.mapItems f) (b.mapItems f) = (cbSplit a b).mapItems f := by
+  unfold cbSplit
+  rw [mapItems_sortAsc]
+  simp only [Bins.mapItems, getD_map_map, List.map_cons, List.map_nil, List.map_append]
+
+@[simp] theorem mapCbState_best (st : CbState α) :
+    (mapCbState f st).best = st.best.map (Bins.mapItems f) := rfl
+@[simp] theorem mapCbState_sd (st : CbState α) : (mapCbState f st).sd = st.sd := rfl
+@[simp] theorem mapCbState_opt (st : CbState α) : (mapCbState f st).opt = st.opt := rfl
+@[simp] theorem mapCbState_tick (st : CbState α) : (mapCbState f st).tick = st.tick := rfl
+
+theorem cbPart_natural (n d : Nat) (cut : Option Nat) (fuel : Nat) (st : CbState α) (subs : List (Bins α)) :
+    cbPart n d cut fuel (mapCbState f st) (subs.map (Bins.mapItems f))
+      = mapCbState f (cbPart n d cut fuel st subs) := by
+  induction fuel generalizing st subs with
+  | zero => rfl
+  | succ fuel ih =>
+    have h1 : (sumDiff ∘ Bins.mapItems f : Bins α → Nat) = sumDiff := rfl
+    have h2 : (lenDiff ∘ Bins.mapItems f : Bins α → Nat) = lenDiff := funext (lenDiff_mapItems f)
+    have hst : (⟨st.best.map (Bins.mapItems f), st.sd, st.opt, st.tick + 1⟩ : CbState β)
+        = mapCbState f ⟨st.best, st.sd, st.opt, st.tick + 1⟩ := rfl
+    match subs with
+    | [] =>
+      simp only [cbPart, List.map_nil, mapCbState_best, mapCbState_sd, mapCbState_opt, mapCbState_tick]
+      exact ite_map _ rfl rfl
+    | [p] =>
+      simp only [cbPart, List.map_cons, List.map_nil, mapCbState_best, mapCbState_sd, mapCbState_opt,
+        mapCbState_tick, sumDiff_mapItems, lenDiff_mapItems]
+      exact ite_map _ rfl (ite_map _ rfl rfl)
+    | p :: q :: rest =>
+      simp only [cbPart, List.map_cons, mapCbState_best, mapCbState_sd, mapCbState_opt, mapCbState_tick]
+      simp only [← List.map_cons]
+      generalize p :: q :: rest = subs
+      simp only [List.map_map, List.length_map, h1, h2]
+      refine ite_map _ rfl (ite_map _ rfl (ite_map _ rfl ?_))
+      rw [sortDesc_map (Bins.mapItems f) sumDiff sumDiff (fun _ => rfl), ← apply_ite (List.map (Bins.mapItems f))]
+      generalize (if decide (subs.length ≤ (n + 1) / 2) = true then sortDesc sumDiff subs else subs) = L
+      match L with
+      | [] => rfl
+      | [a] => rfl
+      | a :: b :: rest =>
+        have happ : ∀ x : Bins α, rest.map (Bins.mapItems f) ++ [x.mapItems f]
+            = (rest ++ [x]).map (Bins.mapItems f) := fun x => by
+          simp only [List.map_append, List.map_cons, List.map_nil]
+        simp only [List.map_cons, cbSplit_natural, cbCombine_natural, happ, hst, ih]
+
+theorem cbldm_natural (vα : α → Nat) (vβ : β → Nat) (hf : ∀ a, vβ (f a) = vα a)
+    (items : List α) (d cut : Option Nat) :
+    cbldm vβ (items.map f) d cut = (cbldm vα items d cut).map (Bins.mapItems f) := by
+  have hsub : ((sortDesc vα items).map f).map (fun x => (Bins.new 2).add vβ x 1)
+      = ((sortDesc vα items).map (fun x => (Bins.new 2).add vα x 1)).map (Bins.mapItems f) := by
+    simp only [List.map_map]
+    apply List.map_congr_left
+    intro x _
+    simp only [Function.comp, mapItems_add f vα vβ hf, mapItems_new]
+  have hinit : ({ best := none, sd := none, opt := false, tick := 0 } : CbState β)
+      = mapCbState f { best := none, sd := none, opt := false, tick := 0 } := rfl
+  simp only [cbldm, sortDesc_map f vα vβ hf, List.length_map, hsub, hinit, cbPart_natural,
+    mapCbState_best]
+
+example : cbldm id (exItems.map Prod.fst) (some 1) none
+    = (cbldm Prod.fst exItems (some 1) none).map (Bins.mapItems Prod.fst) :=
+  cbldm_natural Prod.fst Prod.fst id (fun _ => rfl) exItems (some 1) none
+example : (cbldm Prod.fst exItems (some 1) none).map (·.sums) = some [13, 13] := by decide
+
+end CBLDM
+
+/-! ## 7. Complete greedy -/
+
+/-- rename the items of a stack vertex -/
+def mapVertex (f : α → β) (p : Bins α × Nat) : Bins β × Nat := (p.1.mapItems f, p.2)
+
+/-- rename the items of a complete-greedy search state -/
+def mapCgState (f : α → β) (s : CgState α) : CgState β :=
+  ⟨s.stack.map (mapVertex f), s.seen, s.best.map (Bins.mapItems f), s.bestV, s.done⟩
+
+section CG
+variable (f : α → β) (vα : α → Nat) (vβ : β → Nat) (hf : ∀ a, vβ (f a) = vα a)
+include hf
+
+theorem remFrom_map (sorted : List α) (d : Nat) : remFrom vβ (sorted.map f) d = remFrom vα sorted d := by
+  simp only [remFrom, ← List.map_drop, binSum_map f vα vβ hf]
+
+theorem cgChildren_natural (cfg : CgCfg) (k : Nat) (cur : Bins α) (depth : Nat) (x : α) (r : Nat)
+    (bestV : EInt) (bs : List Nat) (prev : Option Nat) (seen : List (Nat × List Nat))
+    (acc : List (Bins α × Nat)) :
+    cgChildren vβ cfg k (cur.mapItems f) depth (f x) r bestV bs prev seen (acc.map (mapVertex f))
+      = Prod.map (List.map (mapVertex f)) id (cgChildren vα cfg k cur depth x r bestV bs prev seen acc) := by
+  induction bs generalizing prev seen acc with
+  | nil => simp only [cgChildren, Prod.map, List.map_reverse, id]
+  | cons b bs ih =>
+    have hcons : ∀ nb : Bins α, (nb.mapItems f, depth + 1) :: acc.map (mapVertex f)
+        = ((nb, depth + 1) :: acc).map (mapVertex f) := fun _ => rfl
+    simp only [cgChildren, mapItems_sums, hf, ← mapItems_add f vα vβ hf, ← mapItems_sortAsc, hcons, ih]
+    exact ite_map _ rfl (ite_map _ rfl (ite_map _ rfl (ite_map _ (ite_map _ rfl rfl) rfl)))
+
+theorem cgStep_natural (cfg : CgCfg) (k : Nat) (sorted : List α) (glb : EInt) (s : CgState α) :
+    cgStep vβ cfg k (sorted.map f) glb (mapCgState f s)
+      = mapCgState f (cgStep vα cfg k sorted glb s) := by
+  obtain ⟨stack, seen, best, bestV, done⟩ := s
+  match stack with
+  | [] => rfl
+  | (cur, depth) :: stack =>
+    rw [show mapCgState f ⟨(cur, depth) :: stack, seen, best, bestV, done⟩
+        = ⟨(cur.mapItems f, depth) :: stack.map (mapVertex f), seen, best.map (Bins.mapItems f), bestV, done⟩
+        from rfl]
+    simp only [cgStep, List.length_map, mapItems_sums, remFrom_map f vα vβ hf, List.getElem?_map]
+    refine ite_map _ (ite_map _ (ite_map _ rfl rfl) rfl) (ite_map _ ?_ ?_)
+    · have hfold := foldl_natural f (Bins.mapItems f) (fun b x => Bins.add vα b x 0)
+        (fun b x => Bins.add vβ b x 0) (fun b x => (mapItems_add f vα vβ hf b x 0).symm)
+        (sorted.drop depth) cur
+      rw [← List.map_drop, hfold, ← mapItems_sortAsc]
+      rfl
+    · cases sorted[depth]? with
+      | none => rfl
+      | some x =>
+        have hch := cgChildren_natural f vα vβ hf cfg k cur depth x (remFrom vα sorted (depth + 1)) bestV
+          (List.range k).reverse none seen []
+        simp only [List.map_nil] at hch
+        simp only [Option.map_some, hch, Prod.map, id, ← List.map_reverse, ← List.map_append]
+        rfl
+
+theorem cgRun_natural (cfg : CgCfg) (k : Nat) (sorted : List α) (glb : EInt) (t : Nat) (s : CgState α) :
+    cgRun vβ cfg k (sorted.map f) glb t (mapCgState f s)
+      = mapCgState f (cgRun vα cfg k sorted glb t s) := by
+  induction t generalizing s with
+  | zero => rfl
+  | succ t ih =>
+    rw [cgRun, cgRun]
+    refine ite_map _ rfl ?_
+    rw [cgStep_natural f vα vβ hf, ih]
+    obtain ⟨stack, seen, best, bestV, done⟩ := s
+    cases stack <;> rfl
+
+theorem cg_natural (cfg : CgCfg) (k : Nat) (items : List α) (cut : Option Nat) (fuel : Nat) :
+    cg vβ cfg k (items.map f) cut fuel
+      = (cg vα cfg k items cut fuel).map (Option.map (Bins.mapItems f)) := by
+  have hinit : (cgInit k : CgState β) = mapCgState f (cgInit k) := by
+    simp only [cgInit, mapCgState, List.map_cons, List.map_nil, mapVertex, mapItems_new, Option.map_none]
+  simp only [cg, sortDesc_map f vα vβ hf, remFrom_map f vα vβ hf, hinit, cgRun_natural f vα vβ hf]
+  cases cut with
+  | some c => rfl
+  | none =>
+    simp only [mapCgState, List.isEmpty_map]
+    split <;> rfl
+
+omit hf in
+example : cg id ⟨.minLargest, true, true, true, true⟩ 3 (exItems.map Prod.fst) none 1000
+    = (cg Prod.fst ⟨.minLargest, true, true, true, true⟩ 3 exItems none 1000).map
+        (Option.map (Bins.mapItems Prod.fst)) :=
+  cg_natural Prod.fst Prod.fst id (fun _ => rfl) _ 3 exItems none 1000
+omit hf in
+example : (cg Prod.fst ⟨.minLargest, true, true, true, true⟩ 3 exItems none 1000).map (Option.map (·.sums))
+    = .ok (some [8, 9, 9]) := by rfl
+
+end CG
+
+/-! ## 8. Bonus: the sums of CBLDM and complete greedy depend only on the multiset of values -/
+
+theorem option_map_sums (f : α → β) (o : Option (Bins α)) :
+    (o.map (Bins.mapItems f)).map (·.sums) = o.map (·.sums) := by
+  cases o <;> rfl
+
+theorem except_option_map_sums (f : α → β) (e : Except Err (Option (Bins α))) :
+    (e.map (Option.map (Bins.mapItems f))).map (Option.map (·.sums)) = e.map (Option.map (·.sums)) := by
+  cases e with
+  | error _ => rfl
+  | ok o => cases o <;> rfl
+
+theorem cbldm_id_perm {L₁ L₂ : List Nat} (h : L₁.Perm L₂) (d cut : Option Nat) :
+    cbldm id L₁ d cut = cbldm id L₂ d cut := by
+  simp only [cbldm, sortDesc_id_perm h]
+
+theorem cg_id_perm {L₁ L₂ : List Nat} (h : L₁.Perm L₂) (cfg : CgCfg) (k : Nat) (cut : Option Nat) (fuel : Nat) :
+    cg id cfg k L₁ cut fuel = cg id cfg k L₂ cut fuel := by
+  simp only [cg, sortDesc_id_perm h]
+
+theorem cbldm_perm_sums (v : α → Nat) {items₁ items₂ : List α} (h : items₁.Perm items₂) (d cut : Option Nat) :
+    (cbldm v items₁ d cut).map (·.sums) = (cbldm v items₂ d cut).map (·.sums) := by
+  have h₁ := cbldm_natural v v id (fun _ => rfl) items₁ d cut
+  have h₂ := cbldm_natural v v id (fun _ => rfl) items₂ d cut
+  rw [cbldm_id_perm (h.map v)] at h₁
+  have := congrArg (Option.map (·.sums)) (h₁.symm.trans h₂)
+  rwa [option_map_sums, option_map_sums] at this
+
+example : (cbldm Prod.fst exItems (some 1) none).map (·.sums)
+    = (cbldm Prod.fst exItems' (some 1) none).map (·.sums) :=
+  cbldm_perm_sums Prod.fst exItems_perm _ _
+
+theorem cg_perm_sums (v : α → Nat) {items₁ items₂ : List α} (h : items₁.Perm items₂)
+    (cfg : CgCfg) (k : Nat) (cut : Option Nat) (fuel : Nat) :
+    (cg v cfg k items₁ cut fuel).map (Option.map (·.sums))
+      = (cg v cfg k items₂ cut fuel).map (Option.map (·.sums)) := by
+  have h₁ := cg_natural v v id (fun _ => rfl) cfg k items₁ cut fuel
+  have h₂ := cg_natural v v id (fun _ => rfl) cfg k items₂ cut fuel
+  rw [cg_id_perm (h.map v)] at h₁
+  have := congrArg (Except.map (Option.map (·.sums))) (h₁.symm.trans h₂)
+  rwa [except_option_map_sums, except_option_map_sums] at this
+
+example : (cg Prod.fst ⟨.minLargest, true, true, true, true⟩ 3 exItems none 1000).map (Option.map (·.sums))
+    = (cg Prod.fst ⟨.minLargest, true, true, true, true⟩ 3 exItems' none 1000).map (Option.map (·.sums)) :=
+  cg_perm_sums Prod.fst exItems_perm _ 3 none 1000
+
 end Prtpy.Natural
+
+/-
+Axiom audit (output of `#print axioms` observed for every main theorem; only `propext`, `Classical.choice`,
+`Quot.sound` occur):
+
+#print axioms mapItems_sums
+  -- 'Prtpy.Natural.mapItems_sums' does not depend on any axioms
+#print axioms mapItems_new
+  -- 'Prtpy.Natural.mapItems_new' depends on axioms: [propext]
+#print axioms mapItems_add
+  -- 'Prtpy.Natural.mapItems_add' depends on axioms: [propext, Quot.sound]
+#print axioms mapItems_addLast
+  -- 'Prtpy.Natural.mapItems_addLast' depends on axioms: [propext, Quot.sound]
+#print axioms mapItems_addEmpty
+  -- 'Prtpy.Natural.mapItems_addEmpty' depends on axioms: [propext]
+#print axioms mapItems_removeLast
+  -- 'Prtpy.Natural.mapItems_removeLast' depends on axioms: [propext]
+#print axioms mapItems_concat
+  -- 'Prtpy.Natural.mapItems_concat' depends on axioms: [propext]
+#print axioms mapItems_combine
+  -- 'Prtpy.Natural.mapItems_combine' depends on axioms: [propext, Quot.sound]
+#print axioms mapItems_sortAsc
+  -- 'Prtpy.Natural.mapItems_sortAsc' depends on axioms: [propext]
+#print axioms sortDesc_map
+  -- 'Prtpy.Natural.sortDesc_map' depends on axioms: [propext]
+#print axioms sortAsc_map
+  -- 'Prtpy.Natural.sortAsc_map' depends on axioms: [propext]
+#print axioms greedy_natural
+  -- 'Prtpy.Natural.greedy_natural' depends on axioms: [propext, Quot.sound]
+#print axioms roundrobin_natural
+  -- 'Prtpy.Natural.roundrobin_natural' depends on axioms: [propext, Quot.sound]
+#print axioms ffOnline_natural
+  -- 'Prtpy.Natural.ffOnline_natural' depends on axioms: [propext, Quot.sound]
+#print axioms ffDecreasing_natural
+  -- 'Prtpy.Natural.ffDecreasing_natural' depends on axioms: [propext, Quot.sound]
+#print axioms bfOnline_natural
+  -- 'Prtpy.Natural.bfOnline_natural' depends on axioms: [propext, Quot.sound]
+#print axioms bfDecreasing_natural
+  -- 'Prtpy.Natural.bfDecreasing_natural' depends on axioms: [propext, Quot.sound]
+#print axioms multifit_natural
+  -- 'Prtpy.Natural.multifit_natural' depends on axioms: [propext, Classical.choice, Quot.sound]
+#print axioms coverDecreasing_natural
+  -- 'Prtpy.Natural.coverDecreasing_natural' depends on axioms: [propext, Quot.sound]
+#print axioms twoThirds_natural
+  -- 'Prtpy.Natural.twoThirds_natural' depends on axioms: [propext, Quot.sound]
+#print axioms threeQuarters_natural
+  -- 'Prtpy.Natural.threeQuarters_natural' depends on axioms: [propext, Quot.sound]
+#print axioms kk_natural
+  -- 'Prtpy.Natural.kk_natural' depends on axioms: [propext, Quot.sound]
+#print axioms greedy_values
+  -- 'Prtpy.Natural.greedy_values' depends on axioms: [propext, Quot.sound]
+#print axioms greedy_sums_values
+  -- 'Prtpy.Natural.greedy_sums_values' depends on axioms: [propext, Quot.sound]
+#print axioms roundrobin_values
+  -- 'Prtpy.Natural.roundrobin_values' depends on axioms: [propext, Quot.sound]
+#print axioms roundrobin_sums_values
+  -- 'Prtpy.Natural.roundrobin_sums_values' depends on axioms: [propext, Quot.sound]
+#print axioms coverDecreasing_values
+  -- 'Prtpy.Natural.coverDecreasing_values' depends on axioms: [propext, Quot.sound]
+#print axioms coverDecreasing_sums_values
+  -- 'Prtpy.Natural.coverDecreasing_sums_values' depends on axioms: [propext, Quot.sound]
+#print axioms twoThirds_values
+  -- 'Prtpy.Natural.twoThirds_values' depends on axioms: [propext, Quot.sound]
+#print axioms twoThirds_sums_values
+  -- 'Prtpy.Natural.twoThirds_sums_values' depends on axioms: [propext, Quot.sound]
+#print axioms threeQuarters_values
+  -- 'Prtpy.Natural.threeQuarters_values' depends on axioms: [propext, Quot.sound]
+#print axioms threeQuarters_sums_values
+  -- 'Prtpy.Natural.threeQuarters_sums_values' depends on axioms: [propext, Quot.sound]
+#print axioms ffOnline_values
+  -- 'Prtpy.Natural.ffOnline_values' depends on axioms: [propext, Quot.sound]
+#print axioms ffOnline_sums_values
+  -- 'Prtpy.Natural.ffOnline_sums_values' depends on axioms: [propext, Quot.sound]
+#print axioms ffDecreasing_values
+  -- 'Prtpy.Natural.ffDecreasing_values' depends on axioms: [propext, Quot.sound]
+#print axioms ffDecreasing_sums_values
+  -- 'Prtpy.Natural.ffDecreasing_sums_values' depends on axioms: [propext, Quot.sound]
+#print axioms bfOnline_values
+  -- 'Prtpy.Natural.bfOnline_values' depends on axioms: [propext, Quot.sound]
+#print axioms bfOnline_sums_values
+  -- 'Prtpy.Natural.bfOnline_sums_values' depends on axioms: [propext, Quot.sound]
+#print axioms bfDecreasing_values
+  -- 'Prtpy.Natural.bfDecreasing_values' depends on axioms: [propext, Quot.sound]
+#print axioms bfDecreasing_sums_values
+  -- 'Prtpy.Natural.bfDecreasing_sums_values' depends on axioms: [propext, Quot.sound]
+#print axioms kk_values
+  -- 'Prtpy.Natural.kk_values' depends on axioms: [propext, Quot.sound]
+#print axioms kk_sums_values
+  -- 'Prtpy.Natural.kk_sums_values' depends on axioms: [propext, Quot.sound]
+#print axioms multifit_values
+  -- 'Prtpy.Natural.multifit_values' depends on axioms: [propext, Classical.choice, Quot.sound]
+#print axioms multifit_sums_values
+  -- 'Prtpy.Natural.multifit_sums_values' depends on axioms: [propext, Classical.choice, Quot.sound]
+#print axioms sortDesc_id_perm
+  -- 'Prtpy.Natural.sortDesc_id_perm' depends on axioms: [propext, Quot.sound]
+#print axioms sortDesc_values_perm
+  -- 'Prtpy.Natural.sortDesc_values_perm' depends on axioms: [propext, Quot.sound]
+#print axioms greedy_perm_values
+  -- 'Prtpy.Natural.greedy_perm_values' depends on axioms: [propext, Quot.sound]
+#print axioms greedy_perm_sums
+  -- 'Prtpy.Natural.greedy_perm_sums' depends on axioms: [propext, Quot.sound]
+#print axioms roundrobin_perm_values
+  -- 'Prtpy.Natural.roundrobin_perm_values' depends on axioms: [propext, Quot.sound]
+#print axioms roundrobin_perm_sums
+  -- 'Prtpy.Natural.roundrobin_perm_sums' depends on axioms: [propext, Quot.sound]
+#print axioms coverDecreasing_perm_values
+  -- 'Prtpy.Natural.coverDecreasing_perm_values' depends on axioms: [propext, Quot.sound]
+#print axioms coverDecreasing_perm_sums
+  -- 'Prtpy.Natural.coverDecreasing_perm_sums' depends on axioms: [propext, Quot.sound]
+#print axioms twoThirds_perm_values
+  -- 'Prtpy.Natural.twoThirds_perm_values' depends on axioms: [propext, Quot.sound]
+#print axioms twoThirds_perm_sums
+  -- 'Prtpy.Natural.twoThirds_perm_sums' depends on axioms: [propext, Quot.sound]
+#print axioms threeQuarters_perm_values
+  -- 'Prtpy.Natural.threeQuarters_perm_values' depends on axioms: [propext, Quot.sound]
+#print axioms threeQuarters_perm_sums
+  -- 'Prtpy.Natural.threeQuarters_perm_sums' depends on axioms: [propext, Quot.sound]
+#print axioms ffDecreasing_perm_values
+  -- 'Prtpy.Natural.ffDecreasing_perm_values' depends on axioms: [propext, Quot.sound]
+#print axioms ffDecreasing_perm_sums
+  -- 'Prtpy.Natural.ffDecreasing_perm_sums' depends on axioms: [propext, Quot.sound]
+#print axioms bfDecreasing_perm_values
+  -- 'Prtpy.Natural.bfDecreasing_perm_values' depends on axioms: [propext, Quot.sound]
+#print axioms bfDecreasing_perm_sums
+  -- 'Prtpy.Natural.bfDecreasing_perm_sums' depends on axioms: [propext, Quot.sound]
+#print axioms kk_perm_values
+  -- 'Prtpy.Natural.kk_perm_values' depends on axioms: [propext, Quot.sound]
+#print axioms kk_perm_sums
+  -- 'Prtpy.Natural.kk_perm_sums' depends on axioms: [propext, Quot.sound]
+#print axioms multifit_perm_values
+  -- 'Prtpy.Natural.multifit_perm_values' depends on axioms: [propext, Classical.choice, Quot.sound]
+#print axioms multifit_perm_sums
+  -- 'Prtpy.Natural.multifit_perm_sums' depends on axioms: [propext, Classical.choice, Quot.sound]
+#print axioms cbldm_natural
+  -- 'Prtpy.Natural.cbldm_natural' depends on axioms: [propext, Quot.sound]
+#print axioms cg_natural
+  -- 'Prtpy.Natural.cg_natural' depends on axioms: [propext, Quot.sound]
+#print axioms cbldm_perm_sums
+  -- 'Prtpy.Natural.cbldm_perm_sums' depends on axioms: [propext, Quot.sound]
+#print axioms cg_perm_sums
+  -- 'Prtpy.Natural.cg_perm_sums' depends on axioms: [propext, Quot.sound]
+-/
